@@ -33,7 +33,13 @@ class C02(Spec):
              ("cas-vs-increment", pre, (1, "set-safe a 1 5"), (2, "increment a"), tail),
              ("increment-vs-increment", pre, (1, "increment a"), (2, "increment a 10"), tail),
              ("cas-vs-remove", pre, (1, "set-safe a 1 A"), (2, "remove a"), tail),
-             ("cas-on-absent-key", kvgen.setup(), (1, "set-safe n 0 A"), (2, "set-safe n 0 B"), ["C 1 get-safe n"])]
+             ("cas-on-absent-key", kvgen.setup(), (1, "set-safe n 0 A"), (2, "set-safe n 0 B"), ["C 1 get-safe n"]),
+             # the version a reader is told is the version OF the value it is told: a read against every kind of write
+             ("read-vs-plain-set", pre, (1, "get-safe a"), (2, "set a B"), tail),
+             ("read-vs-cas", pre, (1, "get-safe a"), (2, "set-safe a 1 B"), tail),
+             ("read-vs-increment", pre + ["C 1 set a 7"], (1, "get-safe a"), (2, "increment a 5"), tail),
+             ("read-vs-remove", pre, (1, "get-safe a"), (2, "remove a"), tail),
+             ("plain-read-vs-set", pre, (1, "get a"), (2, "set a B"), tail)]
         # compare-and-set is about replies and stored state; the order of notifications is C03's
         return sched.stage("C02", P, tier, seed, parts=("reply-A", "reply-B", "later-replies", "state"))
 
